@@ -476,8 +476,15 @@ def waited_report(ex, st, steps, D, cover, bad):
         if gs or mets or removes:
             bad('waited-for-reboot-report', 'no finish time stored but the report machinery ran')
         return
+    def split(term):
+        # the path does not decide this (the code merged the cases): check the clause under either answer
+        for c_ in (term, z3.Not(term)):
+            if ex.check(st, [c_]) == 'sat':
+                s2 = st.clone()
+                s2.pc.append(c_)
+                waited_report(ex, s2, steps, D, cover, bad)
     if has_ft is None:
-        return
+        return split(ex.discr_of(st, ft).t == 1)
     if len(gs) != 1:
         bad('waited-for-reboot-report', 'target version not read although a finish time is stored')
         return
@@ -485,7 +492,7 @@ def waited_report(ex, st, steps, D, cover, bad):
     tv = Tree({}, gs[0].e.out + '!out', 'std::option::Option<String>')
     has_tv = dval(ex, st, ex.discr_of(st, tv).t)
     if has_tv is None:
-        return
+        return split(ex.discr_of(st, tv).t == 1)
     if has_tv == 0:
         cover.add('report-skipped')
         if mets or removes:
@@ -498,7 +505,7 @@ def waited_report(ex, st, steps, D, cover, bad):
     osver = as_str(ex, st, ex.child(st, os_, fidx(ex, 'protocol::request::OS', 'version'), 'String'))
     same = dval(ex, st, tvs.t == osver.t)
     if same is None:
-        return
+        return split(tvs.t == osver.t)
     if same == 0:
         cover.add('report-skipped')
         if mets or removes:
